@@ -182,6 +182,7 @@ Definition scan_frame (x y : St * list Z * list Ev) : Prop :=
 Lemma scan_one_frame : forall c h t acc a, scan_frame acc (scan_one h t c acc a).
 Proof.
   intros c h t [[s m] ev] a. unfold scan_one, scan_frame.
+  destruct (inb a m); [simpl; tauto|].
   destruct (vstat s !! a) as [v|]; [|simpl; tauto].
   destruct (v_active v && (v_height v + blockVotesDiff c <=? h)); simpl; [|tauto].
   repeat split; auto. intros F. apply Forall_app. split; auto. repeat constructor.
@@ -308,7 +309,7 @@ Qed.
 
 Lemma step_inv : forall c s o s' ev log, votes_inv s log -> step c s o = (s', ev) -> votes_inv s' (log ++ ev).
 Proof.
-  intros c s o s' ev log Inv H. destruct o as [h t low|id rep mal bh|id a ch|a|k v ok d|q ord]; simpl in H.
+  intros c s o s' ev log Inv H. destruct o as [h t low|id rep mal bh|id a ch|a|k v ok d| |q ord]; simpl in H.
   - apply begin_block_frame in H. destruct H as (Hr & _). eapply votes_inv_weaken; [| |exact Inv].
     + rewrite Hr. reflexivity.
     + intros e He. apply elem_of_app. auto.
@@ -347,6 +348,7 @@ Proof.
     + inversion H; subst. eapply votes_inv_weaken; [reflexivity| |exact Inv]. intros e He. apply elem_of_app. auto.
   - unfold do_stake in H. destruct (is_frozen s v); [|destruct ((k =? 1) && request_exists s v); [|destruct ok]];
       inversion H; subst; (eapply votes_inv_weaken; [reflexivity| |exact Inv]; intros e He; apply elem_of_app; auto).
+  - inversion H; subst. eapply votes_inv_weaken; [reflexivity| |exact Inv]. intros e He. apply elem_of_app. auto.
   - apply end_block_sound in H. destruct H as (Hsub & _). eapply votes_inv_weaken; [exact Hsub| |exact Inv].
     intros e He. apply elem_of_app. auto.
 Qed.
@@ -427,7 +429,7 @@ Qed.
 Lemma step_vote_event : forall c s o s' ev id a ch, step c s o = (s', ev) -> EvVote id a ch ∈ ev ->
   o = OVote id a ch /\ is_active s a = true /\ is_frozen s a = false.
 Proof.
-  intros c s o s' ev id a ch H Hin. destruct o as [h t low|id' rep mal bh|id' a' ch'|a'|k v ok d|q ord]; simpl in H.
+  intros c s o s' ev id a ch H Hin. destruct o as [h t low|id' rep mal bh|id' a' ch'|a'|k v ok d| |q ord]; simpl in H.
   - apply begin_block_frame in H. destruct H as (_ & _ & _ & _ & F). rewrite Forall_forall in F.
     exfalso. apply (F _ Hin).
   - unfold do_allege in H. destruct ((bh >? height s) || is_frozen s mal || negb (is_active s rep) || (rep =? mal)
@@ -450,6 +452,7 @@ Proof.
     + inversion H; subst. apply elem_of_list_singleton in Hin. discriminate.
   - exfalso. unfold do_stake in H. destruct (is_frozen s v); [|destruct ((k =? 1) && request_exists s v); [|destruct ok]];
       inversion H; subst; apply elem_of_list_singleton in Hin; discriminate.
+  - exfalso. inversion H; subst. apply elem_of_list_singleton in Hin. discriminate.
   - exfalso. apply end_block_sound in H. destruct H as (_ & F & _). rewrite Forall_forall in F.
     apply (F _ Hin).
 Qed.
@@ -520,19 +523,23 @@ Proof.
 Qed.
 
 (* ---------- frozen stays frozen ---------- *)
-Lemma scan_fold_susp : forall c h t a low acc,
-  (inb a low = true -> match vstat acc.1.1 !! a with Some v => v_active v && (v_height v + blockVotesDiff c <=? h) | None => false end = false) ->
+Lemma scan_one_mal : forall c h t a acc x, inb a acc.1.2 = true -> inb a (scan_one h t c acc x).1.2 = true.
+Proof.
+  intros c h t a [[s m] ev] x H. unfold scan_one. simpl in *. destruct (inb x m); [exact H|].
+  destruct (vstat s !! x) as [v|]; [|exact H].
+  destruct (v_active v && (v_height v + blockVotesDiff c <=? h)); [|exact H]. simpl. rewrite H. apply orb_true_r.
+Qed.
+
+(* an address that is already in the exclusion map keeps its record during the scan *)
+Lemma scan_fold_susp : forall c h t a low acc, inb a acc.1.2 = true ->
   susp (fold_left (scan_one h t c) low acc).1.1 !! a = susp acc.1.1 !! a.
 Proof.
-  induction low as [|x low IH]; simpl; intros acc Hc; [reflexivity|].
-  pose proof (scan_one_frame c h t acc x) as F. destruct F as (_ & Fv & _).
-  rewrite IH.
-  - destruct acc as [[s m] ev]. unfold scan_one. simpl in *. destruct (vstat s !! x) as [v|] eqn:E; [|reflexivity].
-    destruct (v_active v && (v_height v + blockVotesDiff c <=? h)) eqn:C; [|reflexivity]. simpl.
-    destruct (decide (x = a)) as [->|Hne].
-    + rewrite Z.eqb_refl in Hc. simpl in Hc. rewrite E in Hc. rewrite C in Hc. discriminate (Hc eq_refl).
-    + rewrite lookup_insert_ne by congruence. reflexivity.
-  - rewrite Fv. intros Hin. apply Hc. rewrite Hin. apply orb_true_r.
+  induction low as [|x low IH]; simpl; intros acc Hm; [reflexivity|].
+  rewrite IH by (apply scan_one_mal; exact Hm).
+  destruct acc as [[s m] ev]. unfold scan_one. simpl in *. destruct (inb x m) eqn:Ex; [reflexivity|].
+  destruct (vstat s !! x) as [v|]; [|reflexivity].
+  destruct (v_active v && (v_height v + blockVotesDiff c <=? h)); [|reflexivity]. simpl.
+  destruct (decide (x = a)) as [->|Hne]; [congruence|]. rewrite lookup_insert_ne by congruence. reflexivity.
 Qed.
 
 Lemma process_req_byz : forall c q active req acc id a,
@@ -556,18 +563,36 @@ Proof.
   induction ids as [|id ids IH]; simpl; intros acc a H; [exact H|]. apply IH. apply process_req_byz. exact H.
 Qed.
 
-Lemma frozen_stays_frozen : forall c s o s' ev a,
-  byz_frozen_m s a = true -> step c s o = (s', ev) -> o <> ORelease a ->
-  missed_scan_hits c s o a = false -> byz_frozen_m s' a = true.
+Lemma inb_true_iff : forall x l, inb x l = true <-> x ∈ l.
 Proof.
-  intros c s o s' ev a B H Hne T. destruct o as [h t low|id rep mal bh|id a' ch|a'|k v ok d|q ord]; simpl in H.
+  intros x l. unfold inb. rewrite existsb_exists. split.
+  - intros (y & Hy & E). apply Z.eqb_eq in E. subst. apply elem_of_list_In. exact Hy.
+  - intros H. exists x. split; [apply elem_of_list_In; exact H|apply Z.eqb_refl].
+Qed.
+
+Lemma frozen_in_keys : forall s a, is_frozen s a = true -> inb a (frozen_keys s) = true.
+Proof.
+  intros s a Hf. apply inb_true_iff. unfold frozen_keys. apply elem_of_list_filter. split; [exact Hf|].
+  unfold is_frozen in Hf. destruct (susp s !! a) as [l|] eqn:E; [|discriminate].
+  apply elem_of_list_fmap. exists (a, l). split; [reflexivity|]. apply elem_of_map_to_list. exact E.
+Qed.
+
+Lemma byz_frozen_is_frozen : forall s a, byz_frozen_m s a = true -> is_frozen s a = true.
+Proof.
+  intros s a H. unfold byz_frozen_m, is_frozen in *. destruct (susp s !! a); [|discriminate].
+  apply andb_true_iff in H. tauto.
+Qed.
+
+Lemma frozen_stays_frozen : forall c s o s' ev a,
+  byz_frozen_m s a = true -> step c s o = (s', ev) -> o <> ORelease a -> byz_frozen_m s' a = true.
+Proof.
+  intros c s o s' ev a B H Hne. destruct o as [h t low|id rep mal bh|id a' ch|a'|k v ok d| |q ord]; simpl in H.
   - unfold begin_block in H. destruct (h <=? blockVotesDiff c) eqn:Eh.
     + inversion H; subst. exact B.
-    + pose proof (scan_fold_susp c h t a low (s, frozen_keys s, [])) as F.
+    + pose proof (scan_fold_susp c h t a low (s, frozen_keys s, [])
+                    (frozen_in_keys s a (byz_frozen_is_frozen s a B))) as F.
       destruct (fold_left (scan_one h t c) low (s, frozen_keys s, [])) as [[s1 m] ev1] eqn:E.
-      inversion H; subst. unfold byz_frozen_m in *. simpl in *. rewrite F; [exact B|].
-      intros Hin. unfold missed_scan_hits in T. rewrite Hin in T.
-      assert (Hd : blockVotesDiff c <? h = true) by lia. rewrite Hd in T. simpl in T. exact T.
+      inversion H; subst. unfold byz_frozen_m in *. simpl in *. rewrite F. exact B.
   - unfold do_allege in H. destruct ((bh >? height s) || is_frozen s mal || negb (is_active s rep) || (rep =? mal)
               || bool_decide (is_Some (reqs s !! id)) || request_exists s mal); inversion H; subst; exact B.
   - unfold do_vote in H. destruct (is_frozen s a' || negb (is_active s a')); [inversion H; subst; exact B|].
@@ -579,6 +604,7 @@ Proof.
     unfold byz_frozen_m in *. simpl. rewrite lookup_insert_ne; [exact B|]. intros ->. apply Hne. reflexivity.
   - unfold do_stake in H. destruct (is_frozen s v); [|destruct ((k =? 1) && request_exists s v); [|destruct ok]];
       inversion H; subst; exact B.
+  - inversion H; subst. exact B.
   - unfold end_block in H. destruct (height s <=? 1); [inversion H; subst; exact B|].
     destruct (elect c s q) as [vs active]. destruct (active =? 0); [inversion H; subst; exact B|].
     set (s2 := clean (set_vstat s vs)) in *.
@@ -586,32 +612,32 @@ Proof.
     destruct (fold_left _ _ _) as [[s3 dec] ev3]. inversion H; subst. exact F.
 Qed.
 
-(* ---------- a frozen validator drops out of the active set ---------- *)
-Lemma inb_true_iff : forall x l, inb x l = true <-> x ∈ l.
+(* whole histories: once found guilty, frozen until released *)
+Lemma frozen_until_released : forall c ops s a, byz_frozen_m s a = true ->
+  ~ In (ORelease a) ops -> byz_frozen_m (run c s ops).1 a = true.
 Proof.
-  intros x l. unfold inb. rewrite existsb_exists. split.
-  - intros (y & Hy & E). apply Z.eqb_eq in E. subst. apply elem_of_list_In. exact Hy.
-  - intros H. exists x. split; [apply elem_of_list_In; exact H|apply Z.eqb_refl].
+  induction ops as [|o ops IH]; simpl; intros s a B Hn; [exact B|].
+  destruct (step c s o) as [s1 e1] eqn:E1. destruct (run c s1 ops) as [s2 e2] eqn:E2. simpl.
+  assert (B1 : byz_frozen_m s1 a = true).
+  { eapply frozen_stays_frozen; [exact B|exact E1|]. intros ->. apply Hn. left. reflexivity. }
+  specialize (IH s1 a B1). rewrite E2 in IH. apply IH. intros Hin. apply Hn. right. exact Hin.
 Qed.
 
+(* ---------- a frozen validator drops out of the active set ---------- *)
 Lemma scan_fold_mal : forall c h t a low acc, inb a acc.1.2 = true ->
   inb a (fold_left (scan_one h t c) low acc).1.2 = true.
 Proof.
-  induction low as [|x low IH]; simpl; intros acc H; [exact H|]. apply IH.
-  destruct acc as [[s m] ev]. unfold scan_one. simpl in *. destruct (vstat s !! x) as [v|]; [|exact H].
-  destruct (v_active v && (v_height v + blockVotesDiff c <=? h)); [|exact H]. simpl.
-  destruct (inb x m); [exact H|]. simpl. rewrite H. apply orb_true_r.
+  induction low as [|x low IH]; simpl; intros acc H; [exact H|]. apply IH. apply scan_one_mal. exact H.
 Qed.
 
-Lemma begin_malicious : forall c s h t low a, blockVotesDiff c < h -> is_frozen s a = true ->
+Lemma begin_malicious : forall c s h t low a, is_frozen s a = true ->
   inb a (malicious (begin_block c s h t low).1) = true.
 Proof.
-  intros c s h t low a Hh Hf. unfold begin_block. assert (h <=? blockVotesDiff c = false) as -> by lia.
-  pose proof (scan_fold_mal c h t a low (s, frozen_keys s, [])) as F.
-  destruct (fold_left (scan_one h t c) low (s, frozen_keys s, [])) as [[s1 m] ev1]. simpl in *. apply F.
-  apply inb_true_iff. unfold frozen_keys. apply elem_of_list_filter. split; [exact Hf|].
-  unfold is_frozen in Hf. destruct (susp s !! a) as [l|] eqn:E; [|discriminate].
-  apply elem_of_list_fmap. exists (a, l). split; [reflexivity|]. apply elem_of_map_to_list. exact E.
+  intros c s h t low a Hf. unfold begin_block. destruct (h <=? blockVotesDiff c).
+  - simpl. apply frozen_in_keys. exact Hf.
+  - pose proof (scan_fold_mal c h t a low (s, frozen_keys s, [])) as F.
+    destruct (fold_left (scan_one h t c) low (s, frozen_keys s, [])) as [[s1 m] ev1]. simpl in *. apply F.
+    apply frozen_in_keys. exact Hf.
 Qed.
 
 Lemma elect_inactive : forall c mal h a q acc, inb a mal = true ->
@@ -649,7 +675,7 @@ Definition is_tx_op (o : Op) : bool := match o with OBegin _ _ _ | OEnd _ _ => f
 Lemma tx_frame : forall c s o, is_tx_op o = true ->
   malicious (step c s o).1 = malicious s /\ height (step c s o).1 = height s.
 Proof.
-  intros c s o H. destruct o as [h t low|id rep mal bh|id a ch|a|k v ok d|q ord]; try discriminate; simpl.
+  intros c s o H. destruct o as [h t low|id rep mal bh|id a ch|a|k v ok d| |q ord]; try discriminate; simpl.
   - unfold do_allege. destruct ((bh >? height s) || is_frozen s mal || negb (is_active s rep) || (rep =? mal)
               || bool_decide (is_Some (reqs s !! id)) || request_exists s mal); simpl; auto.
   - unfold do_vote. destruct (is_frozen s a || negb (is_active s a)); simpl; auto.
@@ -659,6 +685,7 @@ Proof.
     destruct (negb (lvh_frozen l) || negb (release_ready c l (now s))); simpl; auto.
   - unfold do_stake. destruct (is_frozen s v); simpl; auto.
     destruct ((k =? 1) && request_exists s v); simpl; auto. destruct ok; simpl; auto.
+  - auto.
 Qed.
 
 Lemma txs_frame : forall c txs s, forallb is_tx_op txs = true ->
@@ -679,10 +706,10 @@ Qed.
 
 (* whole block: frozen at the start of a block above BlockVotesDiff => inactive after its EndBlock *)
 Lemma frozen_drops_out : forall c s h t low txs q ord a,
-  blockVotesDiff c < h -> 1 < h -> is_frozen s a = true -> a ∈ q.*1 -> forallb is_tx_op txs = true ->
+  1 < h -> is_frozen s a = true -> a ∈ q.*1 -> forallb is_tx_op txs = true ->
   is_active (run c s (OBegin h t low :: txs ++ [OEnd q ord])).1 a = false.
 Proof.
-  intros c s h t low txs q ord a Hd Hh Hf Hq Htx.
+  intros c s h t low txs q ord a Hh Hf Hq Htx.
   destruct (begin_block c s h t low) as [s1 e1] eqn:E1.
   destruct (run c s1 txs) as [s2 e2] eqn:E2.
   destruct (end_block c s2 q ord) as [s3 e3] eqn:E3.
@@ -690,7 +717,7 @@ Proof.
   { simpl. rewrite E1. erewrite (run_app c txs [OEnd q ord] s1 s2 e2 s3 (e3 ++ [])); [reflexivity|exact E2|].
     simpl. rewrite E3. reflexivity. }
   rewrite R. simpl.
-  pose proof (begin_malicious c s h t low a Hd Hf) as M. rewrite E1 in M. simpl in M.
+  pose proof (begin_malicious c s h t low a Hf) as M. rewrite E1 in M. simpl in M.
   pose proof (begin_height c s h t low) as Hh1. rewrite E1 in Hh1. simpl in Hh1.
   destruct (txs_frame c txs s1 Htx) as [A B]. rewrite E2 in A, B. simpl in A, B.
   pose proof (end_excludes c s2 q ord a) as X. rewrite E3 in X. simpl in X. apply X; [lia|congruence|exact Hq].
